@@ -30,7 +30,7 @@ import (
 var recNativeFuzz = ev.New("C08", "native-fuzz",
 	"coverage-guided native fuzzing (go test -fuzz) of FuzzReadMessage, FuzzTxDecode and FuzzBlockDecode for a bounded time, not pinned by the seed; "+
 		"evaluations = executions reported by the fuzzing engine; oracle inside the targets as in [hostile-messages]/[hostile-tx-block]; "+
-		"the per-target recorders [fuzz-*] carry the class histogram of one worker")
+		"the per-target recorders [fuzz-*] carry the class histograms the workers flushed (a lower bound of the executions)")
 
 type fuzzTarget struct {
 	name string
@@ -66,7 +66,7 @@ func TestNativeFuzz(t *testing.T) {
 
 	var wg sync.WaitGroup
 	var mu sync.Mutex
-	var failures []string
+	var failures, inconclusive []string
 	for _, tg := range targets {
 		wg.Add(1)
 		go func(tg fuzzTarget) {
@@ -90,19 +90,41 @@ func TestNativeFuzz(t *testing.T) {
 			recNativeFuzz.Bulk(execs, 0)
 			recNativeFuzz.Count(tg.name+"-execs", execs)
 			recNativeFuzz.Set(tg.name, fmt.Sprintf("execs=%d wall=%s workers=%s", execs, time.Since(start).Round(time.Second), workers))
-			foldStats(stats, tg.rec)
+			files, _ := filepath.Glob(stats + ".w*")
+			for _, f := range files {
+				if !strings.HasSuffix(f, ".hashes") {
+					foldStats(f, tg.rec)
+				}
+			}
 			if err == nil {
 				return
 			}
-			// a crasher: move the new corpus entry out of the package and report it
-			text = strings.ReplaceAll(strings.ReplaceAll(text, "out of memory", "out-of-memory"), "cannot allocate memory", "cannot-allocate-memory")
-			msg := fmt.Sprintf("native fuzz target %s failed: %v\n%s", tg.name, err, lastLines(text, 60))
+			// The engine reported a failure. Go's fuzz workers abort when one
+			// execution takes more than 10 s of wall time ("deadlocked!"),
+			// which a loaded machine produces without any defect, so the
+			// failure is confirmed deterministically first: the target is run
+			// as a plain test over its seed corpus plus the crashers the
+			// engine just wrote (no watchdog there, same oracle).
+			text = sanitize(text)
 			entries, _ := filepath.Glob(filepath.Join(pkgdir, "testdata", "fuzz", tg.name, "*"))
+			var fresh []string
 			for _, e := range entries {
-				st, serr := os.Stat(e)
-				if serr != nil || st.ModTime().Before(start) {
-					continue
+				if st, serr := os.Stat(e); serr == nil && !st.ModTime().Before(start) {
+					fresh = append(fresh, e)
 				}
+			}
+			re := exec.Command("go", "test", "-tags", "verif", "-vet=off", "-run", "^"+tg.name+"$", "./checks/c08")
+			re.Dir = harness
+			re.Env = fuzzEnv("")
+			reOut, reErr := re.CombinedOutput()
+			var msg string
+			confirmed := reErr != nil
+			if confirmed {
+				msg = fmt.Sprintf("native fuzz target %s failed and the failure reproduces as a plain test:\n%s\n--- engine output:\n%s", tg.name, lastLines(sanitize(string(reOut)), 60), lastLines(text, 25))
+			} else {
+				msg = fmt.Sprintf("native fuzz target %s: a fuzz worker died (%v) but seed corpus and crashers pass as a plain test - engine watchdog/machine load, inconclusive:\n%s", tg.name, err, lastLines(text, 25))
+			}
+			for _, e := range fresh {
 				body, _ := os.ReadFile(e)
 				dst := filepath.Join(wd, "testdata", "rapid", "TestNativeFuzz")
 				os.MkdirAll(dst, 0o755)
@@ -111,14 +133,25 @@ func TestNativeFuzz(t *testing.T) {
 				if len(body) > 6000 {
 					body = body[:6000]
 				}
-				msg += fmt.Sprintf("\nfailing corpus entry (place under checks/c08/testdata/fuzz/%s/ to replay):\n%s", tg.name, body)
+				msg += fmt.Sprintf("\ncorpus entry written by the engine (place under checks/c08/testdata/fuzz/%s/ to replay):\n%s", tg.name, body)
 			}
-			failures = append(failures, msg)
+			if confirmed {
+				failures = append(failures, msg)
+			} else {
+				inconclusive = append(inconclusive, msg)
+			}
 		}(tg)
 	}
 	wg.Wait()
 	for _, f := range failures {
 		t.Errorf("%s", f)
+	}
+	for _, f := range inconclusive {
+		if len(failures) > 0 {
+			t.Logf("inconclusive: %s", f) // do not mask the confirmed failure as an infrastructure problem
+		} else {
+			t.Errorf("VERIF-INFRA: %s", f)
+		}
 	}
 }
 
@@ -167,6 +200,10 @@ func foldStats(path string, rec *ev.Rec) {
 			}
 		}
 	}
+}
+
+func sanitize(s string) string {
+	return strings.ReplaceAll(strings.ReplaceAll(s, "out of memory", "out-of-memory"), "cannot allocate memory", "cannot-allocate-memory")
 }
 
 func lastLines(s string, n int) string {
